@@ -1513,12 +1513,12 @@ Proof.
 Qed.
 
 Lemma alloc_ok_26 k c : k < lim26 ->
-  ((c <=? k) && alloc_fails ((k + 1) * 24) && (c <? k)) = false /\ ((c <=? k) && (big_loop <=? k - c)) = false.
+  ((c <=? k) && alloc_fails ((k + 1) * 24) && (c <? k)) = false /\ ((c <=? k) && mem_slow ((k + 1) * 24)) = false.
 Proof.
-  unfold lim26, alloc_fails, big_loop. intros H. split.
+  unfold lim26, alloc_fails, mem_slow. intros H. split.
   - replace (68719476736 <=? (k + 1) * 24) with false by (symmetry; apply N.leb_gt; lia).
     rewrite andb_false_r. reflexivity.
-  - replace (67108864 <=? k - c) with false by (symmetry; apply N.leb_gt; lia). apply andb_false_r.
+  - replace (4294967296 <=? (k + 1) * 24) with false by (symmetry; apply N.leb_gt; lia). apply andb_false_r.
 Qed.
 
 Lemma mode_get_set_same md w v : w < 4 -> mode_get (mode_set md w v) w = v.
